@@ -330,6 +330,24 @@ def tuple_assignments(fn) -> int:
         while i < len(lst):
             st = lst[i]
             # first, *rest = X   ->   first = X[0]; rest = X[1:]        (*init, last = X likewise)
+            if isinstance(st, ast.Assign) and len(st.targets) == 1 and isinstance(st.targets[0], ast.Tuple) \
+                    and not isinstance(st.value, (ast.Name, ast.Tuple, ast.List)) \
+                    and sum(isinstance(t, ast.Starred) for t in st.targets[0].elts) == 1 \
+                    and all(isinstance(t, ast.Name) or (isinstance(t, ast.Starred) and isinstance(t.value, ast.Name)) for t in st.targets[0].elts):
+                # the unpacked value gets a name first:  *init, last = f()  ->  seq = f(); *init, last = seq
+                used = {x.id for x in ast.walk(fn) if isinstance(x, ast.Name)} | {a.arg for a in ast.walk(fn) if isinstance(a, ast.arg)}
+                tmp = "unpacked"
+                k_ = 1
+                while tmp in used:
+                    tmp = f"unpacked_{k_}"
+                    k_ += 1
+                first = ast.copy_location(ast.Assign(targets=[ast.Name(id=tmp, ctx=ast.Store())], value=st.value), st)
+                st.value = ast.copy_location(ast.Name(id=tmp, ctx=ast.Load()), st)
+                ast.fix_missing_locations(first)
+                lst.insert(i, first)
+                i += 1
+                done += 1
+                continue
             if isinstance(st, ast.Assign) and len(st.targets) == 1 and isinstance(st.targets[0], ast.Tuple) and isinstance(st.value, ast.Name) \
                     and sum(isinstance(t, ast.Starred) for t in st.targets[0].elts) == 1 \
                     and all(isinstance(t, ast.Name) or (isinstance(t, ast.Starred) and isinstance(t.value, ast.Name)) for t in st.targets[0].elts) \
@@ -443,8 +461,31 @@ def accumulate_loops(fn) -> int:
     return done
 
 
+def boolean_ints(tree: ast.AST) -> int:
+    """int(not c) -> (0 if c else 1);  int(<comparison>) -> (1 if <comparison> else 0)      (a truth value used as an index)"""
+    done = 0
+
+    class T(ast.NodeTransformer):
+        def visit_Call(self, n):
+            nonlocal done
+            self.generic_visit(n)
+            if isinstance(n.func, ast.Name) and n.func.id == "int" and len(n.args) == 1 and not n.keywords:
+                a = n.args[0]
+                if isinstance(a, ast.UnaryOp) and isinstance(a.op, ast.Not):
+                    done += 1
+                    return ast.copy_location(ast.IfExp(test=a.operand, body=ast.Constant(value=0), orelse=ast.Constant(value=1)), n)
+                if isinstance(a, (ast.Compare, ast.BoolOp)):
+                    done += 1
+                    return ast.copy_location(ast.IfExp(test=a, body=ast.Constant(value=1), orelse=ast.Constant(value=0)), n)
+            return n
+    T().visit(tree)
+    ast.fix_missing_locations(tree)
+    return done
+
+
 def apply(tree: ast.Module) -> int:
     done = call_arguments(tree)
+    done += boolean_ints(tree)
     for node in ast.walk(tree):
         if isinstance(node, FuncDef):
             done += tuple_assignments(node)
